@@ -28,8 +28,20 @@ and / or / not / conditional expressions, `del x[0:K]`, early raise / return / n
 Every constant subscript, tuple unpacking, struct.unpack and iteration on such a value becomes a
 Prim "implicit ..." raising IndexError / ValueError / StructError / TypeError UNLESS the shape analysis
 proves it safe in every environment; what it cannot prove is listed in the generated file and breaks
-the closure obligation.  Not covered: None-ness of values, arithmetic exceptions, dictionary lookups,
-indices that are not compile time constants on data that is not host data.
+the closure obligation.
+
+Numbers.  The timeout argument of ContactlessFrontend.exchange is followed as "None or a number" into the
+listen side (send_rsp_recv_cmd documents the default None; send_cmd_recv_rsp documents a float, and a driver
+whose listen_* methods all raise UnsupportedTargetError has no listen side - both recorded as assumptions).
+Arithmetic, ordering comparisons, numeric %-formatting, str.format with a format specification, int / float /
+round / abs / min / max / math.* / time.sleep applied to such a value raise TypeError unless an
+`is None` / `is not None` / truth test (also inside and / or / conditional expressions, and as the exit
+condition of a while loop without break) excludes None.  time.sleep(x) raises ValueError unless x is provably
+non-negative (constants, max/min/abs, sums/products/quotients of such); math.log / log2 / log10 (sqrt) raise
+ValueError unless the argument is a positive (non-negative) constant expression.
+
+Not covered: None-ness of other values, division by zero and overflow, dictionary lookups, indices that are not
+compile time constants on data that is not host data, the code below transport.read/write.
 
 The extractor FAILS CLOSED: an ast node type, a called name, a method called on a value, an except
 clause or an errno test that is not on one of the explicit lists raises SkelError; kernels.py then
